@@ -69,6 +69,16 @@ RECEIVERS = [
     ("borrow-of-cell", "cell.borrow()", "cell: std::cell::RefCell<AppHandle>"),
     ("lookup-with-arguments", "mgr.get_webview_window(\"main\").unwrap()", "mgr: AppHandle"),
     ("method-on-field-of-other-variable", "ctx.runtime.handle().clone()", "ctx: Holder"),
+    # "a variable named app, window or webview": whatever its declared type is spelled like
+    ("app-generic-runtime-ref", "app", "<R: tauri::Runtime>|app: &AppHandle<R>"),
+    ("window-generic-runtime", "window", "<R: tauri::Runtime>|window: WebviewWindow<R>"),
+    ("webview-generic-qualified", "webview", "<R: tauri::Runtime>|webview: tauri::Webview<R>"),
+    ("app-in-arc", "app", "app: std::sync::Arc<AppHandle>"),
+    ("app-impl-emitter", "app", "app: impl Emitter"),
+    ("app-type-parameter", "app", "<T: Emitter>|app: &T"),
+    ("app-ref-qualified", "app", "app: &tauri::AppHandle"),
+    ("window-bound-by-let-from-builder", "window", "app0: AppHandle||    let window = tauri::WebviewWindowBuilder::new(&app0, \"aux\", Default::default()).build().unwrap();\n"),
+    ("app-bound-by-annotated-let", "app", "owner: Holder||    let app: &AppHandle = owner.handle_ref();\n"),
 ]
 # payload forms: (label, setup statements, expression, extra fn params, expected type tree or None=unknown)
 def payload_forms(rnd):
@@ -171,6 +181,12 @@ def emit_fn(fname, placement, receiver, method, evname, form, is_async=False, re
         call = '%s.emit_to("main", "%s", %s)' % (rexpr, rs_lit(evname), pexpr)
     else:
         call = '%s.emit("%s", %s)' % (rexpr, rs_lit(evname), pexpr)
+    generics = rsetup = ""
+    if "||" in rparam:
+        rparam, rsetup = rparam.split("||", 1)
+    if "|" in rparam:
+        generics, rparam = rparam.split("|", 1)
+    setup = rsetup + setup
     params = [rparam, "flag: bool", "n: usize"] + ([fparam] if fparam else [])
     needs_try = "?" in ptmpl
     needs_await = ".await" in ptmpl
@@ -178,7 +194,7 @@ def emit_fn(fname, placement, receiver, method, evname, form, is_async=False, re
     body = setup + ptmpl.replace("{E}", call).replace("{{", "{").replace("}}", "}")
     if needs_try:
         body += "    Ok(())\n"
-    return "pub %sfn %s(%s)%s {\n%s}\n\n" % ("async " if needs_await else "", fname, ", ".join(params), ret, body)
+    return "pub %sfn %s%s(%s)%s {\n%s}\n\n" % ("async " if needs_await else "", fname, generics, ", ".join(params), ret, body)
 
 
 def gen_project(rnd, idx, forced=None):
